@@ -191,7 +191,7 @@ def _veq(u, v):
     return u == v
 
 
-def same_outcome(a, b):
+def same_outcome(a, b, viral_only=False):
     if a[0] != b[0]:
         return False, 'outcome kinds differ: %s vs %s' % (a[:3], b[:3])
     if a[0] != 'ok':
@@ -209,8 +209,11 @@ def same_outcome(a, b):
     kx, ky = keyed(x[2]), keyed(y[2])
     if set(kx) != set(ky):
         return False, 'datapoints differ'
+    roles = {c[0]: c[1] for c in x[1]}
     for k in kx:
         for n in names:
+            if viral_only and roles[n] not in ('Identifier', 'Viral Attribute'):
+                continue        # the measures of an analytic invocation / a join are another property's subject (C06 / C04)
             if not _veq(kx[k][n], ky[k][n]):
                 return False, 'datapoint %r component %s: %r vs %r' % (k, n, kx[k][n], ky[k][n])
     return True, ''
@@ -286,7 +289,7 @@ def scripts(ck, n, label, **genkw):
         for sh in shs:
             if base[0] == 'timeout' or sh[0] == 'timeout':
                 continue
-            same, why = same_outcome(base, sh)
+            same, why = same_outcome(base, sh, c.get('viral_only', False))
             if not same:
                 if has_agg and sens_attrs:
                     key = 'row-order-dependence:%s:enumerated-rule' % ('analytic' if 'analytic' in c['ops'] and not ({'aggr', 'aggrc'} & set(c['ops'])) else 'aggregation')
